@@ -216,6 +216,18 @@ def main(argv):
         write_evidence(evfile, pid, tier, seed, 'other', {'explanation': 'analysis failed closed: %s' % e,
                                                           'evaluations': 1, 'distinct_nontrivial': 0}, [], time.time() - t0, 1)
         return 1
+    except Exception as e:      # an internal failure of the analysis is not a pass either
+        import traceback
+        tb = traceback.format_exc()
+        rp = os.path.join(evdir, 'replay', '%s-0.json' % pid)
+        with open(rp, 'w') as f:
+            json.dump({'property': pid, 'rule': 'analysis-internal-error', 'what': '%s: %s' % (type(e).__name__, e), 'traceback': tb.splitlines()[-12:]}, f, indent=1)
+        sys.stderr.write(tb)
+        print('ERROR: internal error of the analysis (%s: %s) - the tree could not be judged' % (type(e).__name__, e))
+        print('VIOLATION property=%s replay=%s' % (pid, rp))
+        write_evidence(evfile, pid, tier, seed, 'other', {'explanation': 'analysis failed closed (internal error): %s' % e,
+                                                          'evaluations': 1, 'distinct_nontrivial': 0}, [], time.time() - t0, 1)
+        return 1
     known = load_known()
     kmap = {}
     for k in known.get('findings', []):
